@@ -109,6 +109,32 @@ CLAIMED["C11"] = (
     "DESIGN.md §3 C11",
 )
 
+CLAIMED["C12"] = (
+    "proptest differential: un-rewritten reference evaluation vs Context constructors / Tree import / from_text; structural laws; deep expressions on a 2 MiB stack in a child process",
+    "Generated expressions with sharing and special-value constants are evaluated operation by operation by an independent reference and compared "
+    "(==, when every intermediate is finite and no zero reaches a sign-sensitive opcode) with the node built through three routes; hash-consing, "
+    "import/export round trip, tree equality / hashing and mutation sensitivity are checked on the same cases; 1e5-1e6 deep expressions are built, "
+    "compared, hashed, imported, exported and dropped on a 2 MiB stack. Exploration.",
+    "refsem is the meaning of an un-rewritten expression (tied to two repository implementations by C01/C02).",
+    "DESIGN.md §3 C12",
+)
+CLAIMED["C13"] = (
+    "proptest metamorphic/reference: independent substitution semantics over generated remap arenas, exact dyadic arithmetic",
+    "Generated arenas nest remap_xyz and remap_affine in any order with shared sub-trees under several frames; an independent substitution "
+    "semantics (outermost remap applied to the coordinates first) is computed in f64 with every intermediate proven exactly representable, so the "
+    "comparison with import + eval is exact. Exploration.",
+    "Only the builder API is exercised (hand-nested RemapAffine nodes are outside the property).",
+    "DESIGN.md §3 C13",
+)
+CLAIMED["C14"] = (
+    "proptest reference: Shape evaluators through every entry point vs Context::eval with an explicit variable map and an exactly transformed position",
+    "Generated functions give each of up to 35 variables its own distinct dyadic coefficient and a randomised traversal order; ShapeVars are "
+    "filled in a generated order with extras; dyadic affine / projective transforms make the expected position exact; every public entry point of the "
+    "point, bulk, interval and gradient shape evaluators is compared; missing variables, wrong array lengths and simplification are covered. Exploration.",
+    "Context::eval is the reference for the underlying function (C01/C12).",
+    "DESIGN.md §3 C14",
+)
+
 NOT_YET = {
 }
 
